@@ -222,7 +222,14 @@ def _package_call(fr: Frame, fi, e, args, kwargs, guard, stmt):
             return res.value()
         except Unsupported as ex:
             ev.notes.append(f"not inlined {fi.qualname}: {ex}")
-    fr.events.append(Event(guard, "call", fi.qualname, tuple(args), e, fr.havoc_depth))
+    # the call event carries every bound argument in the callee's parameter order (positional or keyword alike)
+    ev_args = []
+    for n_ in pos:
+        if n_ not in amap:
+            break                   # position k of the event is parameter k: stop at the first omitted parameter
+        ev_args.append(amap[n_])
+    ev_args = tuple(ev_args) if len(ev_args) >= len(args) else tuple(args)
+    fr.events.append(Event(guard, "call", fi.qualname, ev_args, e, fr.havoc_depth))
     # opaque: keyed by the callee and *all* bound arguments (defaults included by name)
     names = [p for p in pos if p in amap] + sorted(k for k in amap if k not in pos)
 
